@@ -65,8 +65,9 @@ func c14Requests() []c14Req {
 	// does not know and ignores); which spelling counts must not depend on the iteration order of the
 	// parameter map
 	out = append(out, c14Req{"f5+options+cli-both-spellings", f5.Descriptor(), c5,
-		"sensitive=Alpha.Meta.ID+Tiny.On,sensitive_fields=Beta.Meta.Label,computed_fields=Delta.Only,computed=Beta.Count,required_fields=Gamma.KS,required=Shared.ID," +
-			"exclude_fields=Gamma.Deep.Tags,exclude=Alpha.Items,custom_duration=Duration,duration_custom_type=OtherDuration,sort=true,sort_output=false"})
+		// (eight parameters with config=: one bucket, so the start position alone decides the order)
+		"sensitive=Alpha.Meta.ID+Tiny.On,sensitive_fields=Beta.Meta.Label,computed_fields=Delta.Only,computed=Beta.Count," +
+			"custom_duration=Duration,duration_custom_type=OtherDuration,sort=true"})
 	// shapes with several embedded parents, several oneof groups and custom types (sorted)
 	for _, c := range space.F4()[2:] {
 		v := space.Variant(c, true, false, "flags")
@@ -139,6 +140,14 @@ func checkC14(r *Run) int {
 			pts := parseTrace(a.Res.Stderr)
 			if a.Res.ExitCode != 0 || len(pts) == 0 {
 				r.HarnessErrs = append(r.HarnessErrs, fmt.Sprintf("%s: default schedule run failed or printed no trace (exit %d): %s", rq.name, a.Res.ExitCode, lastLines(a.Res.Stderr, 2)))
+				continue
+			}
+			if b.Res.ExitCode == 0 && sha(a.Res.Stdout) != sha(b.Res.Stdout) {
+				// the same request under the same schedule answered differently: whatever the scheduler does
+				// not own (the hash seed of maps with more than one bucket) decides the output
+				r.Outcomes["same-request-different-output"]++
+				add("output-differs-between-identical-runs", rq.name, a.Label, "two runs of the same request under the default schedule give different responses: "+firstDiffLine(a.Res.Content(), b.Res.Content()),
+					map[string]interface{}{"kind": "schedule", "request": rq.name, "schedule": "VERIF_MAPSCHED=-", "config": yaml, "param": rq.param})
 				continue
 			}
 			if traceKey(pts) != traceKey(parseTrace(b.Res.Stderr)) || sha(a.Res.Stdout) != sha(b.Res.Stdout) {
